@@ -12,6 +12,7 @@ import (
 	"io"
 	"log"
 	"net/http"
+	"os"
 	"regexp"
 	"runtime"
 	"sort"
@@ -46,6 +47,7 @@ type Plan struct {
 	Chunk       int    `json:"chunk"`        // read size of upload sources
 	SrcFailAt   int    `json:"src_fail_at"`  // -1 none; the FailIdx-th source fails once this many bytes were delivered
 	FailIdx     int    `json:"fail_idx"`     // which file fails
+	SrcErr      string `json:"src_err"`      // error value of the failing source: "" (a custom error), unexpected-eof, closed-pipe, deadline
 	Declared    bool   `json:"declared_ct"`  // files declare their content type (no sniffing read)
 	ParamErr    string `json:"param_err"`    // "", before (nothing handed over yet), after (files already handed over)
 	Auth        string `json:"auth"`         // none ok err getbody getbody2
@@ -56,7 +58,8 @@ type Plan struct {
 	Reader      string `json:"reader"`       // readall partial none sizes
 	ReadSizes   []int  `json:"read_sizes"`   // reader "sizes": buffer sizes of successive reads (0 allowed), then return
 	Reuse       bool   `json:"reuse"`        // EnableConnectionReuse
-	TimeoutMs   int    `json:"timeout_ms"`   // request timeout (0: none)
+	TimeoutMs   int    `json:"timeout_ms"`   // request timeout (0: none, -1: not set by the caller, i.e. client.DefaultTimeout)
+	DefaultMs   int    `json:"default_ms"`   // value of the package variable client.DefaultTimeout during the case (0: untouched)
 	CtxMs       int    `json:"ctx_ms"`       // caller context deadline (0: none)
 	CtxLevel    string `json:"ctx_level"`    // operation | runtime
 	CancelAt    string `json:"cancel_at"`    // "", before, upload, response
@@ -67,7 +70,20 @@ type Plan struct {
 
 // upload source -------------------------------------------------------------------------------------
 
+func srcError(kind string) error {
+	switch kind {
+	case "unexpected-eof":
+		return io.ErrUnexpectedEOF
+	case "closed-pipe":
+		return io.ErrClosedPipe
+	case "deadline":
+		return os.ErrDeadlineExceeded
+	}
+	return errSrc
+}
+
 type src struct {
+	err    error
 	data   []byte
 	pos    int
 	chunk  int
@@ -79,6 +95,9 @@ type src struct {
 
 func (s *src) Read(p []byte) (int, error) {
 	if s.failAt >= 0 && s.pos >= s.failAt {
+		if s.err != nil {
+			return 0, s.err
+		}
 		return 0, errSrc
 	}
 	if s.pos >= len(s.data) {
@@ -239,7 +258,14 @@ func clientLeaks(before map[string]string) []string {
 // effective deadline of a plan in milliseconds (0: none).
 func (p Plan) deadlineMs() int {
 	d := 0
-	for _, v := range []int{p.TimeoutMs, p.CtxMs} {
+	timeout := p.TimeoutMs
+	if timeout < 0 {
+		timeout = 30000
+		if p.DefaultMs > 0 {
+			timeout = p.DefaultMs
+		}
+	}
+	for _, v := range []int{timeout, p.CtxMs} {
 		if v > 0 && (d == 0 || v < d) {
 			d = v
 		}
@@ -264,6 +290,12 @@ func (p Plan) sourceFails() bool {
 // Check executes the plan and applies the accounting invariants.
 func Check(p Plan) *kit.Violation {
 	before := goroutines()
+	if p.DefaultMs > 0 {
+		// the default request timeout is an exported package variable: a short one lets "the caller set no timeout" be explored
+		old := client.DefaultTimeout
+		client.DefaultTimeout = time.Duration(p.DefaultMs) * time.Millisecond
+		defer func() { client.DefaultTimeout = old }()
+	}
 
 	var (
 		mu          sync.Mutex
@@ -340,7 +372,7 @@ func Check(p Plan) *kit.Violation {
 	}
 
 	mk := func(i, failAt int) *src {
-		return &src{data: bytes.Repeat([]byte{byte('a' + i)}, p.FileLen), chunk: p.Chunk, failAt: failAt, name: fmt.Sprintf("dir/f%d.bin", i), ct: "application/x-scripted"}
+		return &src{err: srcError(p.SrcErr), data: bytes.Repeat([]byte{byte('a' + i)}, p.FileLen), chunk: p.Chunk, failAt: failAt, name: fmt.Sprintf("dir/f%d.bin", i), ct: "application/x-scripted"}
 	}
 	op := &rt.ClientOperation{ID: "plan", Method: "POST", PathPattern: "/up"}
 	if p.URLErr {
@@ -364,7 +396,9 @@ func Check(p Plan) *kit.Violation {
 		if p.ParamErr == "before" {
 			return errParam
 		}
-		_ = req.SetTimeout(time.Duration(p.TimeoutMs) * time.Millisecond)
+		if p.TimeoutMs >= 0 {
+			_ = req.SetTimeout(time.Duration(p.TimeoutMs) * time.Millisecond)
+		}
 		switch p.Payload {
 		case "json":
 			_ = req.SetBodyParam(map[string]string{"a": "b"})
@@ -621,6 +655,9 @@ func Gen(t *rapid.T) Plan {
 		p.SrcFailAt = rapid.IntRange(0, p.FileLen).Draw(t, "failat")
 		p.FailIdx = rapid.IntRange(0, 2).Draw(t, "failidx")
 	}
+	if p.SrcFailAt >= 0 {
+		p.SrcErr = rapid.SampledFrom([]string{"", "", "unexpected-eof", "closed-pipe", "deadline"}).Draw(t, "srcerr")
+	}
 	p.Declared = rapid.Bool().Draw(t, "declared")
 	p.ParamErr = rapid.SampledFrom([]string{"", "", "", "", "before", "after"}).Draw(t, "paramerr")
 	p.Auth = rapid.SampledFrom([]string{"none", "ok", "err", "getbody", "getbody2"}).Draw(t, "auth")
@@ -636,7 +673,12 @@ func Gen(t *rapid.T) Plan {
 		}
 	}
 	p.Reuse = rapid.Bool().Draw(t, "reuse")
-	p.TimeoutMs = rapid.SampledFrom([]int{0, 15, 40, 5000}).Draw(t, "timeout")
+	p.TimeoutMs = rapid.SampledFrom([]int{0, 15, 40, 5000, -1}).Draw(t, "timeout")
+	if p.TimeoutMs < 0 {
+		p.DefaultMs = rapid.SampledFrom([]int{30, 5000}).Draw(t, "defaultms")
+	} else if rapid.IntRange(0, 5).Draw(t, "eqdefault") == 0 && p.TimeoutMs > 0 {
+		p.DefaultMs = p.TimeoutMs // an explicit timeout that happens to equal the default
+	}
 	p.CtxMs = rapid.SampledFrom([]int{0, 0, 25, 5000}).Draw(t, "ctx")
 	p.CtxLevel = rapid.SampledFrom([]string{"operation", "operation", "runtime"}).Draw(t, "ctxlevel")
 	if rapid.IntRange(0, 4).Draw(t, "cancel") == 0 {
@@ -647,7 +689,14 @@ func Gen(t *rapid.T) Plan {
 	p.MissingProd = rapid.IntRange(0, 19).Draw(t, "missingprod") == 0
 	// a stalling response needs a short deadline to end: that deadline is what the property is about
 	if p.RespEnd == "stall" && (p.deadlineMs() == 0 || p.deadlineMs() > 100) {
-		p.TimeoutMs = rapid.SampledFrom([]int{15, 40}).Draw(t, "stalltimeout")
+		if p.TimeoutMs < 0 {
+			p.DefaultMs = 30
+		} else {
+			p.TimeoutMs = rapid.SampledFrom([]int{15, 40}).Draw(t, "stalltimeout")
+			if p.DefaultMs > 0 {
+				p.DefaultMs = p.TimeoutMs
+			}
+		}
 	}
 	return p
 }
@@ -683,6 +732,14 @@ func Enumerate(yield func(Plan) bool) {
 												p.ParamErr, p.Auth, p.RT, p.Reuse, p.URLErr = perr, auth, rtm, reuse, urlerr
 												if !yield(p) {
 													return
+												}
+												if fail >= 0 && !urlerr && perr == "" {
+													for _, se := range []string{"unexpected-eof", "closed-pipe"} {
+														p.SrcErr = se
+														if !yield(p) {
+															return
+														}
+													}
 												}
 											}
 										}
@@ -720,6 +777,18 @@ func Enumerate(yield func(Plan) bool) {
 							if !yield(p) {
 								return
 							}
+							if end == "stall" && cancel < 0 {
+								// the caller set no timeout (or one equal to the default) and a later context deadline
+								q := p
+								q.TimeoutMs, q.DefaultMs, q.CtxMs = -1, 25, 5000
+								if !yield(q) {
+									return
+								}
+								q.TimeoutMs, q.DefaultMs = 25, 25
+								if !yield(q) {
+									return
+								}
+							}
 						}
 					}
 				}
@@ -746,6 +815,10 @@ func Classify(p Plan) (bool, []string) {
 	add(p.RespEnd == "err" || p.RespEnd == "stall", "response fault")
 	add(p.CancelAt != "", "cancel "+p.CancelAt)
 	add(p.URLErr, "url error")
+	add(p.sourceFails() && p.SrcErr != "", "source fails with "+p.SrcErr)
+	add(p.TimeoutMs < 0, "default request timeout")
+	add(p.TimeoutMs > 0 && p.DefaultMs == p.TimeoutMs, "explicit timeout equal to the default")
+	add(p.deadlineMs() > 0 && p.CtxMs > p.deadlineMs(), "context deadline later than the request timeout")
 	add(p.MissingProd, "missing producer")
 	add(p.deadlineMs() > 0 && p.deadlineMs() < 100 && p.RespEnd == "stall", "deadline shorter than completion")
 	add(p.Reuse && (p.Reader == "partial" || p.Reader == "none" || p.Reader == "sizes"), "reuse with unread body")
